@@ -6,11 +6,11 @@ ROOT = os.path.dirname(os.path.dirname(os.path.abspath(__file__)))
 # id -> (technique, level text, level note, design ref)
 CHECKS = {
  "C01": ("exhaustive enumeration vs. independently walked calendar (model-based differential)",
-         "Complete enumeration of the stated finite domain (all 3,652,059 day numbers, their out-of-range neighbours, the whole (y,m,d) grid) against a calendar built by day-by-day stepping; this decides the property for every input it quantifies over, short of a bug shared by the 60-line reference walk.",
+         "Complete enumeration of the stated finite domain (all 3,652,059 day numbers, their out-of-range neighbours, the whole (y,m,d) grid) against a calendar built by day-by-day stepping; this decides the property for every input it quantifies over, short of a bug shared by the 60-line reference walk. The same triples are also written as text and read through the parse entry points of Date, Timestamp and OracleDate (separate validators), with the same acceptance and error-kind rule.",
          "Trusted: the reference walk (month lengths + leap rule + Thursday anchor as written in the statement), the Rust toolchain. Both tiers are exhaustive.",
          "4/C01"),
  "C07": ("exhaustive enumeration + boundary-pool pairs vs. i128 div/rem model (model-based differential)",
-         "Every date x critical times of day, every second of the day, every microsecond at three seconds, the full (h,m,s,us) validity grid and neighbour/random ordering pairs are compared with integer arithmetic n*86400e6+t; complete for the date and second axes, sampled (boundary pool + seeded) for arbitrary instants.",
+         "Every date x critical times of day, every second of the day, every microsecond at three seconds, the full (h,m,s,us) validity grid and neighbour/random ordering pairs are compared with integer arithmetic n*86400e6+t; complete for the date and second axes, sampled (boundary pool + seeded) for arbitrary instants. Every swept instant is also compared (all operators, both argument orders) with the Date of the previous, same and next day.",
          "Trusted: walked calendar, i128 arithmetic, std DefaultHasher for hash consistency. Arbitrary (date, microsecond) pairs away from the critical times are sampled, not enumerated.",
          "4/C07"),
  "C08": ("pool cross-product sweeps + proptest with shrinking vs. exact i128 / dyadic-rational arithmetic",
@@ -18,7 +18,7 @@ CHECKS = {
          "Trusted: i128 arithmetic and the dyadic decomposition of doubles (unit-tested). Error kinds are not constrained by the statement and are not checked.",
          "4/C08"),
  "C04": ("exhaustive single-token sweeps + proptest composite pictures vs. independent reference renderer (differential)",
-         "Every date x every date token, every second x every time token, every microsecond x every fraction token, the (type x token) applicability matrix over boundary pools, and proptest-generated composite pictures of up to 40 tokens are rendered by an independent reference renderer and compared byte for byte through both formatting entry points. Complete for single tokens over the date / second / microsecond axes; sampled for composite pictures.",
+         "Every date x every date token, every second x every time token, every microsecond x every fraction token, the (type x token) applicability matrix over boundary pools, and proptest-generated composite pictures of up to 40 tokens are rendered by an independent reference renderer and compared byte for byte through both formatting entry points. Complete for single tokens over the date / second / microsecond axes; sampled for composite pictures. Histories on one reused compiled Formatter (format / parse calls of mixed types, some failing) and concurrent histories (16 threads formatting their own values with shared picture texts) are judged against the same reference.",
          "Trusted: the reference tokenizer/renderer written from the C04/C19 statements and the walked calendar. Case left open by the statement (lU name tokens, mixed-case meridian) is compared ignoring case.",
          "4/C04"),
  "C09": ("exhaustive enumeration vs. floor-division month model on the walked calendar",
@@ -46,11 +46,11 @@ CHECKS = {
          "Trusted: the dyadic decomposition (unit-tested); the admissible set is a superset of the statement's tolerance by at most a relative 2^-60, so ties cannot alarm.",
          "4/C14"),
  "C19": ("exhaustive short strings + proptest token sequences vs. reference longest-match tokenizer, observed through a probe rendering; both build profiles",
-         "Every string up to length 4 (quick) / 5 (thorough) over a 39-symbol alphabet, blank runs of every length up to 700, the 36-token limit, near-miss spellings and proptest token sequences of up to 40 tokens are compiled; acceptance must equal the reference tokenizer's and the probe rendering must equal the reference rendering of the reference token list (token identity, name case, blank-run length). Run under release and under overflow-checked builds.",
+         "Every string up to length 4 (quick) / 5 (thorough) over a 39-symbol alphabet, blank runs of every length up to 700, the 36-token limit, near-miss spellings and proptest token sequences of up to 40 tokens are compiled; acceptance must equal the reference tokenizer's and the probe rendering must equal the reference rendering of the reference token list (token identity, name case, blank-run length). Run under release and under overflow-checked builds. Every letter-case pattern of every name / meridian token is formatted for probes covering every month name, weekday name and both meridians.",
          "Trusted: the reference tokenizer written from the token list in the statement. Language membership beyond length 5 is sampled by grammar-based generation.",
          "4/C19"),
  "C02": ("operation-table cross-product sweeps + proptest operands vs. range predicates and exact models (validity oracle)",
-         "Every row of a 130-row table of safe public operations is crossed with boundary+seeded operand pools and extreme scalars, and fed proptest-generated operands; every returned value must satisfy its type's range predicate, rows with an exact model must return Ok(exact) iff in range (so clamping or an in-range wrap is caught), month arithmetic must match the month model or fail, and speller-built parse inputs at / past the edges must yield Err or an in-range value.",
+         "Every row of a 130-row table of safe public operations is crossed with boundary+seeded operand pools and extreme scalars, and fed proptest-generated operands; every returned value must satisfy its type's range predicate, rows with an exact model must return Ok(exact) iff in range (so clamping or an in-range wrap is caught), month arithmetic must match the month model or fail, and speller-built parse inputs at / past the edges must yield Err or an in-range value. Integers of every width handed to each type's Deserialize (serde de::value deserializers) must give an error or exactly the in-range value they denote, never a wrapped image.",
          "Trusted: range limits derived from the walked calendar and the statement; the operation table is hand-written from the public API (a new public function is not picked up automatically). Sampled over operand space; boundary regions by construction.",
          "4/C02"),
  "C03": ("exhaustive short strings + proptest grammar/mutation generation + operation table with extreme scalars, oracle = catch_unwind; both build profiles; libFuzzer target in thorough",
@@ -58,27 +58,27 @@ CHECKS = {
          "Trusted: std::panic::catch_unwind observing every library call. Absence of panics is established only for what was generated; long structured inputs are sampled.",
          "4/C03"),
  "C05": ("exhaustive (year, day-of-year) / date / second sweeps + constructive speller with proptest shrinking; oracle = value known by construction, single-component perturbations must be rejected",
-         "Every (year, day-of-year 0..367), every date through six pictures, every second in 24h and 12h+meridian notation in both orders, 7-digit fractions and each type's carry chain are parsed and compared with the value they denote; a speller constructs lenient spellings (unpadded, '+', blanks, letter case, month names for MM, 1..9 fraction digits with carry, omitted trailing time fields) of generated values of all six types, and 24 kinds of single out-of-domain perturbations that must produce an error.",
+         "Every (year, day-of-year 0..367), every date through six pictures, every second in 24h and 12h+meridian notation in both orders, 7-digit fractions and each type's carry chain are parsed and compared with the value they denote; a speller constructs lenient spellings (unpadded, '+', blanks, letter case, month names for MM, 1..9 fraction digits with carry, omitted trailing time fields) of generated values of all six types, and 24 kinds of single out-of-domain perturbations that must produce an error. Negative texts include Unicode look-alikes and single-bit flips inside names / meridians, duplicated codes whose text ends early, and the meridian-before-hour omission cases.",
          "Trusted: the speller's sound-domain restrictions (listed in DESIGN.md 4/C05) and the walked calendar. Lenient spellings of arbitrary pictures are sampled.",
          "4/C05"),
  "C06": ("round-trip (metamorphic) over generated lossless pictures; exhaustive dates / seconds x generated pictures; formatted text cross-checked with the reference renderer",
-         "parse(format(v,p),p) == v and byte-identical re-formatting for all dates and all seconds of the day under generated lossless pictures (field permutations, separators, name styles, extra consistent fields), and for proptest-generated values of all six types; the intermediate text is also compared with the independent renderer so a compensating pair of errors cannot hide.",
+         "parse(format(v,p),p) == v and byte-identical re-formatting for all dates and all seconds of the day under generated lossless pictures (field permutations, separators, name styles, extra consistent fields), and for proptest-generated values of all six types; the intermediate text is also compared with the independent renderer so a compensating pair of errors cannot hide. Boundary and binary-boundary pool values of every type (incl. times of day at 2^k counted from midnight and back from the next midnight) meet fixed rich pictures carrying every consistent redundant field; every round trip runs under an injected current date; concurrent histories from 16 threads.",
          "Trusted: the lossless-picture grammar (which pictures count as unambiguous: DESIGN.md 4/C06). Picture space is sampled.",
          "4/C06"),
- "C15": ("round trip through serde_json and bincode + payload perturbation; oracle = same value / range predicate",
-         "All dates, all seconds and pools of the other types round-trip through JSON and bincode with the exact expected encodings (reference rendering of the fixed layouts; little-endian raw counts); raw integers at every limit +-3, at the integer extremes and 1e5..1e6 seeded integers, and mutated / malformed JSON strings, must decode to Err or an in-range value (whole seconds for the Oracle-style date).",
+ "C15": ("round trip through serde_json and bincode + payload perturbation + operation histories (single-thread and 16-thread stress); oracle = same value / range predicate / denoted integer",
+         "All dates, all seconds and pools of the other types round-trip through JSON and bincode with the exact expected encodings (reference rendering of the fixed layouts; little-endian raw counts); raw integers at every limit +-3, at the integer extremes and 1e5..1e6 seeded integers, and mutated / malformed JSON strings, must decode to Err or an in-range value (whole seconds for the Oracle-style date). Histories of 2..10 successful and failing operations on one thread, concurrent histories from 16 threads, integers of every width through serde's value deserializers (error or exactly the denoted value) and long strings with a multi-byte character across every byte offset complete the decode side.",
          "Trusted: serde_json and bincode 1.3 as data formats; the reference renderer for the JSON layouts.",
          "4/C15"),
  "C16": ("exhaustive conversion sweep + operation-table invariant + exact dyadic model for fractional days",
-         "From<Timestamp>/new for all dates x 4 seconds x 5 sub-second parts equal the i128 floor; every operation that takes or returns an Oracle-style date keeps the whole-second / range invariant on pool cross products; interval arithmetic equals the floored timestamp result; add_days variants land on a whole second within half a second of an exactly computed admissible instant; sub_date equals seconds/86400 correctly rounded.",
+         "From<Timestamp>/new for all dates x 4 seconds x 5 sub-second parts equal the i128 floor; every operation that takes or returns an Oracle-style date keeps the whole-second / range invariant on pool cross products; interval arithmetic equals the floored timestamp result; add_days variants land on a whole second within half a second of an exactly computed admissible instant; sub_date equals seconds/86400 correctly rounded. Every visited instant is also injected as the current local instant for OracleDate::now() and OracleDate::try_from(Time).",
          "Trusted: i128 arithmetic, dyadic model. add_days may fail when the unrounded instant is outside the timestamp range (documented leniency).",
          "4/C16"),
  "C17": ("differential / metamorphic agreement of three implementations, exhaustive over dates",
          "For every date (and critical whole-second times) each of the 24 trunc/round units, last_day_of_month, month and interval offsets and all subtraction variants are applied through Date, Timestamp and OracleDate and must denote the same instant or all fail; mixed-type comparisons in both argument orders must equal the comparison of the converted counts. No reference model is involved, so this is independent of the C10/C11 oracles.",
          "Trusted: only the conversions between the three types (themselves checked in C07/C16).",
          "4/C17"),
- "C18": ("exhaustive sweep of the injected clock over every possible current date vs. default model (needs the verif-hooks clock)",
-         "The clock hook is set to each of the 3,652,059 possible current local dates (x 1 or 3 times of day) and partial pictures, short years, now() and time-of-day conversions are compared with the model defaults validated by the walked calendar; complete pictures must give identical results under nine different clocks.",
+ "C18": ("exhaustive sweep of the injected clock over every possible current date x time-of-day classes vs. default model, omission grid over time-part pictures (needs the verif-hooks clock)",
+         "The clock hook is set to each of the 3,652,059 possible current local dates (x 1 or 3 times of day) and partial pictures, short years, now() and time-of-day conversions are compared with the model defaults validated by the walked calendar; complete pictures must give identical results under nine different clocks. An omission grid (12 time-part pictures in several field orders, text ending after every token) and rotating injected times of day (midnight, +1 us, +0.5 s, mid-day, last microsecond) cover the 12-hour / meridian defaults and the first second of the day before 1970.",
          "Trusted: the hook replaces exactly the value of Local::now().naive_local() at the six read sites (add-only, feature-gated). Time-zone handling inside chrono is outside the property.",
          "4/C18"),
 }
